@@ -27,7 +27,7 @@ RULES = {
 }
 PROBES = ["valid_setup_after_corrupt_data", "valid_setup_after_truncated_data", "valid_setup_after_abort",
           "setup_short_payload", "setup_long_payload", "setup_bad_crc", "setup_foreign_address", "setup_token_then_token",
-          "high_speed_runs", "setup_noncontrol_ep"]
+          "high_speed_runs", "setup_noncontrol_ep", "setup_token_only_then_foreign_setup"]
 META = {
     "components_real": ["USBDevice", "USBControlEndpoint", "USBSetupDecoder", "USBDataPacketDeserializer", "USBTokenDetector",
                         "USBDataPacketCRC", "USBInterpacketTimer", "USBHandshakeGenerator", "StandardRequestHandler",
@@ -141,6 +141,15 @@ def gen(rng, tier, index):
                     op["data_abort_at"] = rng.randint(1, 10)
                 elif q < 0.57:
                     op["ep"] = rng.randint(1, 15)
+                elif q < 0.62:
+                    # the SETUP token for EP0 arrives but its data packet is never seen; the very next thing on the bus is a
+                    # complete, valid SETUP transaction for another endpoint or another device: its data must not be taken as ours
+                    op["skip_data"] = True
+                    ops.append(op)
+                    op = {"op": "setup", "addr": 0, "ep": rng.randint(1, 15), "data": _setup_bytes(rng).hex(), "pid": "DATA0",
+                          "gap": rng.choice([1, 2, 3, 8])}
+                    if rng.random() < 0.3:
+                        op["addr"], op["ep"] = rng.randint(1, 127), rng.choice([0, 0, rng.randint(1, 15)])
             ops.append(op)
         elif r < 0.9:
             ops.append(_unrelated(rng))
@@ -284,6 +293,8 @@ def run(scn):
             rec["payload"] = d[1] if data_ok else None
             if rec["noncontrol"]:
                 probes["setup_noncontrol_ep"] += 1
+            if records and records[-1]["op"].get("skip_data") and records[-1]["to_ep0"] and data_ok and not rec["expect"]:
+                probes["setup_token_only_then_foreign_setup"] += 1
             if rec["expect"] and last_bad:
                 key = {"data_corrupt_bit": "valid_setup_after_corrupt_data", "data_truncate": "valid_setup_after_truncated_data",
                        "data_abort": "valid_setup_after_abort"}.get(last_bad)
